@@ -139,7 +139,7 @@ def run_shard(ctx):
     mon_ctf.CONFIG.update(K={"quick": 2, "thorough": 3}[ctx.tier])
     mon_cf.CONFIG.update(K={"quick": 2, "thorough": 3}[ctx.tier])
     rng = ctx.rng
-    for i in range(ctx.share({"quick": 5000, "thorough": 100000}[ctx.tier])):
+    for i in range(ctx.share({"quick": 40000, "thorough": 300000}[ctx.tier])):
         n = rng.choice([2, 3, 4, 4, 5] if i % 5 != 4 else [2, 3, 3, 4, 4])
         gd = gg.random_admg(rng, n, hostile=rng.choice(gg.HOSTILE + ("isolated", "bichain")))
         run_case(ctx, gd, rng, i)
